@@ -80,7 +80,10 @@ def plain(v):
         items.sort(key=repr)
         return tuple(items)
     if t == "timestamp":
-        off = v.utcoffset() if v.tzinfo is not None else None
+        try:
+            off = v.utcoffset() if v.tzinfo is not None else None
+        except Exception as ex:  # noqa - a timestamp whose zone is unusable is still an observable value
+            return ("unusable-timestamp", type(ex).__name__)
         off = off or datetime.timedelta(0)
         naive = datetime.datetime(v.year, v.month, v.day, v.hour, v.minute, v.second, v.microsecond)
         delta = naive - _EPOCH_NAIVE
